@@ -13,5 +13,6 @@ CHECKS = {
     "C04": _lazy("graph", "run_c04"),
     "C05": _lazy("graph", "run_c05"),
     "C13": _lazy("frag", "run_c13"),
+    "C14": _lazy("annot", "run_c14"),
     "C20": _lazy("graph", "run_c20"),
 }
